@@ -27,7 +27,11 @@ def strategy_(draw, tier):
     big = tier == "thorough"
     m = draw(S.library(lang="any", max_types=10 if big else 7, max_funcs=6, symfeatures=False, tu_private=30))
     cfg = draw(S.build_config())
-    m2, info = MU.breaking(draw, m)
+    only = None
+    if m["lang"] == "cxx" and draw(st.booleans()):
+        cxxk = [k for k in MU.applicable_breaking(m) if k in ("add_base", "remove_base", "add_virtual", "remove_virtual")]
+        only = cxxk or None
+    m2, info = MU.breaking(draw, m, only=only)
     return {"model": m, "cfg": cfg, "mutant": m2, "info": info}
 
 
